@@ -889,3 +889,36 @@ impl<B, I> SelectAdapt<B, I> {
         )
     }
 }
+
+/// Verification hooks (add-only): public wrappers around the module-private
+/// kernels shared by all adaptive selection structures.
+#[cfg(feature = "sux_verif")]
+pub mod verif {
+    use super::{Inventory, SelectAdapt, SpanType};
+
+    /// Returns 16, 32 or 64: the width of the subinventory entries chosen for
+    /// a span.
+    pub fn span_type_bits(span: usize) -> u32 {
+        match SpanType::from_span(span) {
+            SpanType::U16 => 16,
+            SpanType::U32 => 32,
+            SpanType::U64 => 64,
+        }
+    }
+
+    /// Marks an inventory entry as a 16- (no-op), 32- or 64-bit span and
+    /// returns (entry, is_u16, is_u32, is_u64, position).
+    pub fn inventory_entry(position: usize, bits: u32) -> (usize, bool, bool, bool, usize) {
+        let mut e = position;
+        match bits {
+            16 => e.set_u16_span(),
+            32 => e.set_u32_span(),
+            _ => e.set_u64_span(),
+        }
+        (e, e.is_u16_span(), e.is_u32_span(), e.is_u64_span(), e.get())
+    }
+
+    pub fn log2_ones_per_sub32(span: usize, log2_ones_per_sub16: usize) -> usize {
+        SelectAdapt::<(), ()>::log2_ones_per_sub32(span, log2_ones_per_sub16)
+    }
+}
